@@ -67,7 +67,7 @@ def static_plan(cfg, rng):
             preds[e["v"]].append((e["u"], e["vol"]))
         free = {m: 0 for m in mach}
         eft, where = {}, {}
-        for k in sorted(nodes):   # edges go from lower to higher k
+        for k in topo_order(wf):
             m = rng.choice(sorted(mach))
             rt = max(nodes[k]["comp"] // mach[m]["cpu"], nodes[k]["data"] // mach[m]["bw"], 1)
             est = free[m]
@@ -90,7 +90,24 @@ def static_plan(cfg, rng):
     return plan
 
 
+def relabel(rng, wf):
+    """the same DAG with its node numbers permuted (node numbering of a
+    workflow file need not be topological)"""
+    ks = [n["k"] for n in wf["nodes"]]
+    perm = ks[:]
+    rng.shuffle(perm)
+    f = dict(zip(ks, perm))
+    nodes = sorted(({**n, "k": f[n["k"]]} for n in wf["nodes"]), key=lambda n: n["k"])
+    edges = [{"u": f[e["u"]], "v": f[e["v"]], "vol": e["vol"]} for e in wf["edges"]]
+    return {"nodes": nodes, "edges": edges}
+
+
 def random_wf(rng, maxn=4, heavy=False):
+    wf = _random_wf(rng, maxn, heavy)
+    return relabel(rng, wf) if rng.random() < 0.3 else wf
+
+
+def _random_wf(rng, maxn=4, heavy=False):
     n = rng.randint(1, maxn)
     nodes = [{"k": k, "comp": rng.choice([0, 1, 2, 3, 4, 6] if not heavy else [2, 4, 6, 9]),
               "data": rng.choice([0, 0, 0, 1, 2, 4])} for k in range(1, n + 1)]
